@@ -41,6 +41,18 @@ def always_called(prog, body, callee_name):
     c = cnd.conds(prog, body)
     sites = [bi for bi, t, cal in mir.iter_calls(body, name=callee_name)]
     if not sites:
+        # `items.iter_mut().for_each(|x| x.callee(..))` instead of a `for` loop: the closure calls it unconditionally and
+        # the for_each itself runs on every execution
+        pvb = df.Prov(body)
+        for cb in prog.closures_of(body, recursive=False):
+            gc = mir.cfg(cb)
+            cs = [bi for bi, t, cal in mir.iter_calls(cb, name=callee_name)]
+            if not cs or not any(gc.postdominates_returning(bi, 0) for bi in cs):
+                continue
+            for bj, t, cal in mir.iter_calls(body, name="for_each"):
+                args = [df.strip(pvb.op_tree(a)) for a in t["args"]]
+                if any(a[0] == "agg" and a[1] == "closure:" + cb.j["key"] for a in args) and g.postdominates_returning(bj, 0):
+                    return True, "once per item of an unconditional for_each (bb%d)" % bj
         return False, "no call of %s" % callee_name
     for bi in sites:
         if g.postdominates_returning(bi, 0):
